@@ -345,6 +345,45 @@ fn mat2_helpers<S: Dom>(t: &mut Tape, cx: &mut Cx) -> CaseResult {
     Ok(())
 }
 
+
+/// Unsigned element types: the six helpers are differences of products; whenever every entry of the true result is
+/// non-negative (and the products fit) the result is representable and must be returned, without a detour through a
+/// negated operand (`0 - b` panics / wraps for unsigned types).
+fn mat2_helpers_unsigned(t: &mut Tape, cx: &mut Cx) -> CaseResult {
+    let big = t.bool();
+    let mut g = |big: bool| -> [[i128; 2]; 2] {
+        let mut m = [[0i128; 2]; 2];
+        for i in 0..2 { for j in 0..2 { m[i][j] = if big { t.int(0, 60000) as i128 } else { t.int(0, 12) as i128 }; } }
+        m
+    };
+    let (a, b) = (g(big), g(big));
+    let adj = |m: &[[i128; 2]; 2]| [[m[1][1], -m[0][1]], [-m[1][0], m[0][0]]];
+    let mm = |x: &[[i128; 2]; 2], y: &[[i128; 2]; 2]| { let mut r = [[0i128; 2]; 2]; for i in 0..2 { for j in 0..2 { r[i][j] = x[i][0] * y[0][j] + x[i][1] * y[1][j]; } } r };
+    let rows = |m: &[[i128; 2]; 2]| Vec4 { x: m[0][0] as u32, y: m[0][1] as u32, z: m[1][0] as u32, w: m[1][1] as u32 };
+    let cols = |m: &[[i128; 2]; 2]| Vec4 { x: m[0][0] as u32, y: m[1][0] as u32, z: m[0][1] as u32, w: m[1][1] as u32 };
+    let from_rows = |v: Vec4<u32>| [[v.x as i128, v.y as i128], [v.z as i128, v.w as i128]];
+    let from_cols = |v: Vec4<u32>| [[v.x as i128, v.z as i128], [v.y as i128, v.w as i128]];
+    let ok = |m: &[[i128; 2]; 2]| m.iter().flatten().all(|x| *x >= 0 && *x <= u32::MAX as i128);
+    sample!(cx, "u32 A={:?} B={:?}", a, b);
+    let (ab, ajb, abj) = (mm(&a, &b), mm(&adj(&a), &b), mm(&a, &adj(&b)));
+    cx.set_nontrivial(a[0][1] != 0 && a[1][0] != 0 && b[0][1] != 0 && b[1][0] != 0 && (ok(&ajb) || ok(&abj)));
+    if ok(&ab) {
+        check_eq!(cx, from_rows(rows(&a).mat2_rows_mul(rows(&b))), ab, "u32 mat2_rows_mul");
+        check_eq!(cx, from_cols(cols(&a).mat2_cols_mul(cols(&b))), ab, "u32 mat2_cols_mul");
+    }
+    if ok(&ajb) {
+        cx.label("unsigned adj(A)*B representable");
+        check_eq!(cx, from_rows(rows(&a).mat2_rows_adj_mul(rows(&b))), ajb, "u32 mat2_rows_adj_mul");
+        check_eq!(cx, from_cols(cols(&a).mat2_cols_adj_mul(cols(&b))), ajb, "u32 mat2_cols_adj_mul");
+    }
+    if ok(&abj) {
+        cx.label("unsigned A*adj(B) representable");
+        check_eq!(cx, from_rows(rows(&a).mat2_rows_mul_adj(rows(&b))), abj, "u32 mat2_rows_mul_adj");
+        check_eq!(cx, from_cols(cols(&a).mat2_cols_mul_adj(cols(&b))), abj, "u32 mat2_cols_mul_adj");
+    }
+    Ok(())
+}
+
 /// Integer instantiation (i64, small values, no overflow): product and `%` with truncating semantics.
 fn products_int(t: &mut Tape, cx: &mut Cx) -> CaseResult {
     let mut a = [[0i64; 4]; 4];
@@ -418,6 +457,7 @@ pub fn property() -> Property {
     let m2 = "Vec4::mat2_{rows,cols}_{mul,adj_mul,mul_adj} vs A*B, adj(A)*B, A*adj(B) on 2x2 arrays";
     tape!("mat2-helpers-rat", m2, 32, 20_000, 400_000, mat2_helpers::<Rat>);
     tape!("mat2-helpers-f64", m2, 48, 10_000, 200_000, mat2_helpers::<f64>);
+    tape!("mat2-helpers-u32", "the six Vec4-as-2x2 helpers on an UNSIGNED element type: whenever every entry of the true result (i128 model) is representable it must be returned -- no detour through a negated operand", 24, 20_000, 400_000, mat2_helpers_unsigned);
     Property {
         id: "C01",
         rule: "cases are byte tapes generated by proptest (uniform bytes, fixed seed) decoded to matrices/vectors/scalars with small rational or float entries; a case is non-trivial when both operands have >= 3 distinct non-zero entries, neither is symmetric and A*B != B*A (element-wise checks: all entries pairwise distinct opaque terms); distinct = distinct consumed tape prefix per check",
